@@ -33,6 +33,25 @@ theorem C15_partition_symmetric (a b : List Name) : partitionMatch a b = partiti
   rw [beq_list_comm a b, anyCommonName_comm a b, defaultMatch_comm a b]
   cases (b == a) <;> cases anyCommonName b a <;> cases anyPatternMatch a b <;> cases anyPatternMatch b a <;> rfl
 
+/-- C15 (partition, the two copies of the test): the expression in process_discovered_readers (writer side) and the one in
+    process_discovered_writers (reader side) give the same verdict for every publisher partition and every subscriber
+    partition — so `matched` on the writer and `matched` on the reader can never disagree because of the partitions -/
+theorem C15_partition_sides_agree (pub sub : List Name) : writerSideMatch pub sub = readerSideMatch pub sub := by
+  have h1 : writerSideMatch pub sub = partitionMatch sub pub := rfl
+  have h2 : readerSideMatch pub sub = partitionMatch pub sub := rfl
+  rw [h1, h2, C15_partition_symmetric]
+
+/-- both copies are the model function the other theorems speak about -/
+theorem C15_partition_sides_are_partitionMatch (pub sub : List Name) :
+    writerSideMatch pub sub = partitionMatch pub sub ∧ readerSideMatch pub sub = partitionMatch pub sub :=
+  ⟨by rw [C15_partition_sides_agree]; rfl, rfl⟩
+
+/-- one of two names matched by the other side's pattern is enough, on both sides and in both roles -/
+example : writerSideMatch ["A1".toList, "B1".toList] ["A*".toList] = true ∧ readerSideMatch ["A1".toList, "B1".toList] ["A*".toList] = true ∧
+    writerSideMatch ["A*".toList] ["B1".toList, "A1".toList] = true ∧ readerSideMatch ["A*".toList] ["B1".toList, "A1".toList] = true ∧
+    readerSideMatch ["A1".toList] ["B*".toList, "A*".toList] = true ∧ readerSideMatch ["B1".toList, "c1".toList] ["A*".toList] = false := by
+  decide
+
 /-! ### the empty list -/
 
 theorem globMatch_nil (n : Name) : globMatch [] n = n.isEmpty := by
